@@ -76,8 +76,8 @@ func isCmp(e ast.Expr) bool {
 	return false
 }
 
-// assignsTo returns the right-hand sides of every assignment (= or :=) to the identifier name inside n.
-func assignsTo(n ast.Node, name string) (defs []ast.Expr, sets []ast.Expr) {
+// hAssignsTo returns the right-hand sides of every assignment (= or :=) to the identifier name inside n.
+func hAssignsTo(n ast.Node, name string) (defs []ast.Expr, sets []ast.Expr) {
 	ast.Inspect(n, func(x ast.Node) bool {
 		as, ok := x.(*ast.AssignStmt)
 		if !ok || (len(as.Lhs) != len(as.Rhs) && len(as.Rhs) != 1) {
@@ -134,7 +134,7 @@ func genHandler() {
 			fd.Type.Params.List[1].Names[0].Name != "current" || fd.Type.Params.List[2].Names[0].Name != "upon" {
 			die("broadcastNextPartial: parameters are not (ctx, current roundInfo, upon *common.Beacon)")
 		}
-		defs, sets := assignsTo(fd.Body, "round")
+		defs, sets := hAssignsTo(fd.Body, "round")
 		if len(defs) != 1 || len(sets) != 1 {
 			die("broadcastNextPartial: expected exactly one `round := …` and one `round = …`, got %d and %d", len(defs), len(sets))
 		}
@@ -148,7 +148,7 @@ func genHandler() {
 			if !ok {
 				continue
 			}
-			_, s2 := assignsTo(is.Body, "round")
+			_, s2 := hAssignsTo(is.Body, "round")
 			if len(s2) == 1 {
 				if theIf != nil {
 					die("broadcastNextPartial: two ifs assign round")
@@ -167,7 +167,7 @@ func genHandler() {
 		var order []string
 		for _, st := range fd.Body.List {
 			switch {
-			case func() bool { d, _ := assignsTo(st, "round"); _, isIf := st.(*ast.IfStmt); return len(d) == 1 && !isIf }():
+			case func() bool { d, _ := hAssignsTo(st, "round"); _, isIf := st.(*ast.IfStmt); return len(d) == 1 && !isIf }():
 				order = append(order, "define")
 			case st == ast.Stmt(theIf):
 				order = append(order, "resign-if")
@@ -249,7 +249,7 @@ func genHandler() {
 		if len(bn) != 1 {
 			die("run/tick: expected exactly one broadcastNextPartial call, got %v", bn)
 		}
-		lb, _ := assignsTo(tick, "lastBeacon")
+		lb, _ := hAssignsTo(tick, "lastBeacon")
 		if len(lb) != 1 || exprString(lb[0]) != "h.chain.Last(ctx)" {
 			die("run/tick: lastBeacon is not `h.chain.Last(ctx)`")
 		}
@@ -333,11 +333,11 @@ func genHandler() {
 	// ---- ProcessPartialBeacon ----
 	{
 		fd := findFunc(hdir, "Handler", "ProcessPartialBeacon")
-		nr, _ := assignsTo(fd.Body, "nextRound")
+		nr, _ := hAssignsTo(fd.Body, "nextRound")
 		if len(nr) != 1 || exprString(nr[0]) != "common.NextRound(h.conf.Clock.Now().Unix(),h.conf.Group.Period,h.conf.Group.GenesisTime)" {
 			die("ProcessPartialBeacon: nextRound is not common.NextRound(clock now, period, genesis)")
 		}
-		pr, _ := assignsTo(fd.Body, "pRound")
+		pr, _ := hAssignsTo(fd.Body, "pRound")
 		if len(pr) != 1 || exprString(pr[0]) != "p.GetRound()" {
 			die("ProcessPartialBeacon: pRound is not p.GetRound()")
 		}
@@ -417,9 +417,9 @@ func genHandler() {
 	// ---- ticker.Start ----
 	{
 		fd := findFunc(hdir, "ticker", "Start")
-		tr, _ := assignsTo(fd.Body, "tround")
-		_, trs := assignsTo(fd.Body, "tround")
-		tt, tts := assignsTo(fd.Body, "ttime")
+		tr, _ := hAssignsTo(fd.Body, "tround")
+		_, trs := hAssignsTo(fd.Body, "tround")
+		tt, tts := hAssignsTo(fd.Body, "ttime")
 		_ = tr
 		_ = tt
 		var roundSrc, timeSrc []string
